@@ -1517,16 +1517,16 @@ STATUS = {
  "C07": "Proved (hash_ok): Inv (target and store agree with the blob on the delivered set) holds initially and is preserved by every decode_ranges step, sync or fsm, on ANY stream and under any sink fault (C07_inv_step, C07_inv_history); the validator reports exactly the completely delivered groups in every reachable state (C07_validator_exact*); once the delivered set covers all chunks the state is (blob, created store) (C07_converges, C07_history_converges*).",
  "C08": "Proved: creation sync = fsm unconditionally (C08_outboard_agree); decoding sync = fsm on EVERY stream (C08_decode_agree, C08_decode_cases); validating encoders sync = fsm under load agreement, discharged for memory and pre-sized io-backed stores (C08_encode_agree, C08_load_agree_*); the non-validating encoders equal the validating ones exactly when every touched group is fully selected, refuted otherwise = known finding F6 (C08_nonvalidating_*). The item-stream traversal yields, for any data and any store, Size, then items whose bytes are exactly the sync encoder's output, then Done / the same error (C08_encode_agree, C08_mixed_frame).",
  "C09": "Proved (hash_ok): truncation at any byte / alteration of any byte of the honest stream yields exactly the items before it and NotFound / HashMismatch naming the item containing the byte (C09_e2e_*), io kinds by computation; no panic up to the first error (C16_total). Panic of the sync iterator polled after an error: known finding F8.",
- "C10": "Proved: first-failure semantics over the per-operation call lists (surfaces, nothing after, prefix), classification of every call site, decode_ranges with failing sinks, read loops with a failing read. Partial by nature: the call lists are tied to the crate by the logged-call correspondence; OS / runtime behaviour around a failing call is outside the model.",
- "C11": "Proved: the three exact-read loops, both decoders and outboard creation give schedule-independent results (Interrupted excluded for tokio read_exact, with a refuting witness). Partial by nature: poll-level suspension is exhibited by the harness only.",
- "C12": "Proved unboundedly: node iterators = Shape listings, pre / post offsets = positions 0..n-1 of the persisted nodes in traversal order, nothing for nodes below the block level and the half leaf, NoDup / permutation. copy / flip: correspondence family.",
- "C13": "Proved: stable iff persisted and subtree inside the blob, stable slots form a prefix, stable nodes keep slot (C13) and pair (C13_keeps_pair), stable byte prefix of post-order outboards under appends (C13_prefix).",
- "C14": "Proved: truncation preserves the selection, is idempotent and well formed; sel-equal queries have identical honest encodings and cross-decode (C14_encode_equiv, C14_cross_decode). C14_truncate_canonical as first stated is refuted with a witness and replaced by the two true variants.",
- "C15": "Proved unboundedly: the three stack-machine plans equal the recursive plans, which satisfy every well-formedness checker (stack discipline, ordered disjoint leaves, structure, root flag, cover); the checkers are thereby a certified oracle (C15_holds_pre/post).",
+ "C10": "Proved: first-failure semantics over the per-operation call lists (surfaces, nothing after, prefix), classification of every call site, decode_ranges with failing sinks, read loops with a failing read. Partial by nature: the call lists are tied to the crate by the logged-call correspondence; OS / runtime behaviour around a failing call is outside the model. Audit additions: the k-th reader call failing over whole decoder runs (sync, fsm) and creation, failing data / outboard sources under every encoder, validator, copy and the item stream (result is exactly the io error, output a prefix), full sinks, truncated blobs.",
+ "C11": "Proved: the three exact-read loops, both decoders and outboard creation give schedule-independent results (Interrupted excluded for tokio read_exact, with a refuting witness). Partial by nature: poll-level suspension is exhibited by the harness only. Audit additions: sync::outboard over any schedule, std / tokio write_all and positioned read_exact_at loops over scheduled environments, the sync encoder over both.",
+ "C12": "Proved unboundedly: node iterators = Shape listings, pre / post offsets = positions 0..n-1 of the persisted nodes in traversal order, nothing for nodes below the block level and the half leaf, NoDup / permutation. copy / flip: correspondence family. Audit additions: copy / copy_fsm / flip lose and invent nothing (exact outcome characterisation, node-keyed sources with holes, flip after flip is the identity, created stores stay created stores); offsets stated over the model's own iterators; the size bound is sharp (refutation above 2^63).",
+ "C13": "Proved: stable iff persisted and subtree inside the blob, stable slots form a prefix, stable nodes keep slot (C13) and pair (C13_keeps_pair), stable byte prefix of post-order outboards under appends (C13_prefix). Audit additions: stability for every node id (only no-wrap), exact slot listing, stored pairs of created stores kept (all kinds, sync and fsm loaders), byte prefix for the model's writers and for chains of appends.",
+ "C14": "Proved: truncation preserves the selection, is idempotent and well formed; sel-equal queries have identical honest encodings and cross-decode (C14_encode_equiv, C14_cross_decode). C14_truncate_canonical as first stated is refuted with a witness and replaced by the two true variants. Audit additions: chunk plans, all four encoders (any store), both decoders and decode_ranges (every stream) and all four validators are functions of the selection; requester and provider may use different equivalent queries.",
+ "C15": "Proved unboundedly: the three stack-machine plans equal the recursive plans, which satisfy every well-formedness checker (stack discipline, ordered disjoint leaves, structure, root flag, cover); the checkers are thereby a certified oracle (C15_holds_pre/post). Audit additions: every well-formedness clause stated of the three stack machines themselves for any min level, exact cover (chunk groups touched / chunks selected), granularity of leaves, the root item, ResponseIter = chunk iterator at block size 0.",
  "C16": "Proved (hash_ok): for every stream, a decoder with the true root but claimed size s' whose query selects the last claimed chunk can finish only if s' = |data| (sync and fsm); no claimed size <= 2^63 makes the model decoders panic.",
- "C17": "Proved under the stated guards: exact membership characterisations, monotonicity, idempotence; outside the guards refuted with witnesses = known finding F5.",
- "C18": "Proved for ids < 2^62 and shifts <= 10 (20 theorems), incl. enumeration of post-order offsets and soundness / completeness of the restricted operations.",
- "C19": "Proved: postcard round trip of every wire type in the byte-level model; refutation of the pinned snapshot's length hint (fixed, F1). Partial by nature on the JSON side (serde_json round trip + text comparison by the harness).",
+ "C17": "Proved under the stated guards: exact membership characterisations, monotonicity, idempotence; outside the guards refuted with witnesses = known finding F5. Audit additions: covers / least / greatest / aligned characterisations, list-level idempotence, guards tight for every block size, release-build monotonicity and idempotence, the debug build panics exactly outside the guard.",
+ "C18": "Proved for ids < 2^62 and shifts <= 10 (20 theorems), incl. enumeration of post-order offsets and soundness / completeness of the restricted operations. Audit additions: every clause re-proved for every id a u64 can hold (children, parent, ranges, counts, offsets, block-size conversion, restricted operations), refuted exactly at u64::MAX, explicit enumeration of subtrees.",
+ "C19": "Proved: postcard round trip of every wire type in the byte-level model; refutation of the pinned snapshot's length hint (fixed, F1). Partial by nature on the JSON side (serde_json round trip + text comparison by the harness). Audit additions: decoder soundness (anything accepted re-serialises to itself, up to varint canonicity), rejection of truncations, bad tags and short sequences, the io-error text convention, JSON round trips for u64 / Parent / Leaf.",
  "C20": "Proved: tree() and hash() constant on every reachable state incl. after errors, reader position at Done / finish (C20_*).",
 }
 for _pid, _txt in STATUS.items():
